@@ -4,6 +4,8 @@ import (
 	"fmt"
 
 	"github.com/advancedclimatesystems/gonnx/onnx"
+	"github.com/advancedclimatesystems/gonnx/ops"
+	"github.com/advancedclimatesystems/gonnx/ops/opset13"
 
 	"verif/harness/gen"
 	"verif/harness/mon"
@@ -86,3 +88,5 @@ func nodeFor(req mon.OpReq) *onnx.NodeProto {
 func runProtoModel(mp *onnx.ModelProto, outputs []string) mon.Outcome {
 	return mon.RunModelProto(mp, nil, outputs)
 }
+
+func getOp(name string) (ops.Operator, error) { return opset13.GetOperator(name) }
